@@ -270,6 +270,9 @@ func (mo *Monitor) AfterBlock(b *forge.Block) error {
 					props["C12"] = true
 					props["C07"] = true
 				}
+				if isScheduledIssuanceAddress(a) {
+					props["C15"] = true // developer, burn and mint addresses change by the schedule and by nothing else unscripted
+				}
 				if mo.sigPrefix != "" {
 					props["C11"] = true
 					props["C12"] = true
@@ -538,6 +541,19 @@ func (mo *Monitor) AfterBlock(b *forge.Block) error {
 		}
 	}
 	// ---- C16 bank row
+	{
+		zeroYield := map[string]bool{}
+		for _, ev := range x.Events {
+			if ev.Kind == "peg-yield" && ev.Delta.Sign() == 0 {
+				zeroYield[ev.Ref] = true
+			}
+		}
+		for _, ev := range x.Events {
+			if ev.Kind == "peg-refund" && ev.Delta.Sign() > 0 && zeroYield[ev.Ref] {
+				r.Count("peg_requests_allotted_zero_with_refund", 1)
+			}
+		}
+	}
 	if x.Bank != nil {
 		var amt, used, req int64
 		err := mo.DB.QueryRow("SELECT bank_amount, bank_used, total_requested FROM pn_bank WHERE height = ?", h).Scan(&amt, &used, &req)
@@ -601,6 +617,10 @@ func (mo *Monitor) AfterBlock(b *forge.Block) error {
 			}
 			total += v
 		}
+		if x.UnpricedStakes > 0 {
+			r.Count("snapshots_with_unpriced_held_assets", 1)
+			r.Count("unpriced_holder_asset_pairs", int64(x.UnpricedStakes))
+		}
 		if paid > 0 {
 			r.Count("paying_snapshots", 1)
 			r.Count("holders_paid", int64(paid))
@@ -626,6 +646,26 @@ func (mo *Monitor) AfterBlock(b *forge.Block) error {
 	}
 	mo.Prev = obs
 	return nil
+}
+
+var scheduledAddrs map[factom.FAAddress]bool
+
+// isScheduledIssuanceAddress: the addresses of C15's statement (developer table, the two burn addresses, the mint address).
+func isScheduledIssuanceAddress(a factom.FAAddress) bool {
+	if scheduledAddrs == nil {
+		scheduledAddrs = map[factom.FAAddress]bool{}
+		for _, s := range []string{rules.GlobalOldBurnAddress, rules.GlobalBurnAddress, rules.GlobalMintAddress} {
+			if x, err := factom.NewFAAddress(s); err == nil {
+				scheduledAddrs[x] = true
+			}
+		}
+		for _, d := range rules.DevTable {
+			if x, err := factom.NewFAAddress(d.Addr); err == nil {
+				scheduledAddrs[x] = true
+			}
+		}
+	}
+	return scheduledAddrs[a]
 }
 
 func assetClass(t fat2.PTicker) string {
